@@ -39,7 +39,8 @@ pub fn hist_strategy(
 }
 
 /// name pools made of component names of /verif/fixture_embed (plus a few names it lacks)
-pub const EMB_POOLS: [[&str; 5]; 7] = [
+pub const EMB_POOLS: [[&str; 5]; 8] = [
+    ["many", "e00", "e24", "sub1", "a"],
     ["rep", "top.txt", "deep.bin", "reprep", "z"],
     ["a", "ab", "c.txt", "cd", "e.bin"],
     ["dir", "sub", "deep", "only", "empty"],
